@@ -36,8 +36,11 @@ func (o *Obligation) queryText(withModel bool) string {
 	b.WriteString("(set-option :produce-models true)\n(set-logic ALL)\n")
 	b.WriteString("; obligation " + o.Name + "\n")
 	if o.vc != nil {
-		for _, l := range o.vc.lines[:o.Prefix] {
+		for i, l := range o.vc.lines[:o.Prefix] {
 			if o.relaxed && strings.Contains(l, "(forall ") {
+				continue
+			}
+			if o.Known != nil && i >= o.skipFrom && i < o.skipTo {
 				continue
 			}
 			b.WriteString(l)
